@@ -1,5 +1,6 @@
 import KafVerif.Lemmas.KafkaRestoreRun
 import KafVerif.Lemmas.KafkaRestoreBytes
+import KafVerif.Lemmas.KafkaPitrTime
 /-!
 C08 — Point-in-time restore copies an exact, valid prefix or nothing.
 
@@ -22,8 +23,13 @@ Where the pieces are (all for EVERY batch / record list / store / fault set; no 
   target keys, `recoverTopic_ok`;
 * `Lemmas/KafkaRestoreBytes.lean` — `buildRestorePlan` on a broker-written segment is `BuildSegment`
   of the kept batches (`plan_built`), shape of the kept batches (`collectBatches_shape`);
+* `Lemmas/KafkaPitrTime.lean` — the restore time is a `time.Time` (nanoseconds): `cutoff_is_floor`,
+  `candidate_after_is_floor`, `restored_prefix_cut_at_time`; the kept batches have true headers again
+  (`collect_hdr_true`: the max timestamp of a cut batch is the maximum of the KEPT records, also when record
+  timestamps go backwards inside the batch), hence `restore_again_identity`, `restore_again_earlier`;
 * this file — **`restore_run_exact`**: the composition, one theorem about
-  `RecoverTopicToTimestamp` over a whole multi-partition run.
+  `RecoverTopicToTimestamp` over a whole multi-partition run (cutoff `T` in milliseconds; for a restore time
+  `t : GoTime` the run is `recoverTopicAt … t … = recoverTopic … t.unixMilli …`, see `restore_run_exact_at`).
 -/
 set_option linter.unusedSimpArgs false
 set_option linter.unusedVariables false
@@ -340,6 +346,19 @@ theorem _root_.KafVerif.C08.restore_run_exact (crc : Bytes → Nat) (mk : Alloc)
           simp only [Option.some.injEq] at e1
           subst e1
           exact ⟨e2, e3⟩
+
+/-- **the run for a restore time with nanosecond resolution** (`cfg.RestoreTo = t`, any sub-millisecond fraction,
+before or after 1970): `restore_run_exact` holds with `T = t.UnixMilli()`, the candidate index used in `GroupExact` is
+the one the code computes with `CreatedAt.After(RestoreTo)` on `time.Time`s, and in `FinalSeg` "not later than T" /
+"later than T" mean not later / later than the instant `t` itself (`cutoff_is_floor`). -/
+theorem _root_.KafVerif.C08.restore_run_exact_at (crc : Bytes → Nat) (mk : Alloc) (t : GoTime) (hv : t.Valid)
+    (allowed : List Int) (s : S3) :
+    recoverTopicAt crc mk t allowed s = recoverTopic crc mk t.unixMilli allowed s ∧
+    (∀ segs : List Src, lastCandidateAt t segs = lastCandidate t.unixMilli segs) ∧
+    (∀ ts : Int, (ts ≤ t.unixMilli ↔ ts * 1000000 ≤ t.unixNano) ∧ (ts > t.unixMilli ↔ ts * 1000000 > t.unixNano)) := by
+  refine ⟨rfl, lastCandidateAt_eq t hv, fun ts => ?_⟩
+  have := KafVerif.C08.cutoff_is_floor t hv ts
+  omega
 
 /-! ### non-vacuity of `restore_run_exact`: a store with one broker-written segment of three records
 (timestamps 1000, 1050, 1200), restored to T = 1100 — the run succeeds, cuts inside the batch, and the
